@@ -59,7 +59,8 @@ def known_match(known, prop, unit_name, d):
             continue
         if k.get("kind") and k["kind"] != d.kind:
             continue
-        if k.get("source_text") and extract.rs.norm_ws(k["source_text"]) != extract.rs.norm_ws(d.text):
+        cmp_text = d.post_clause if (d.kind == "post" and d.post_clause) else d.text
+        if k.get("source_text") and extract.rs.norm_ws(k["source_text"]) != extract.rs.norm_ws(cmp_text):
             continue
         return k
     return None
@@ -277,7 +278,8 @@ def main(argv):
         nviol = 0
         for idx, (u, d, res) in enumerate(violations):
             path = write_replay(prop, idx, u, d, res)
-            print("  failed obligation: %s\n    %s | %s" % (d.obligation_name(u), d.message, d.text.strip()))
+            print("  failed obligation: %s\n    %s | %s%s" % (d.obligation_name(u), d.message, d.text.strip(),
+                                                                (" | clause: " + d.post_clause.strip()) if d.post_clause else ""))
             print("VIOLATION property=%s replay=%s no-failing-input-found" % (prop, path))
             nviol += 1
         for k, h, r in kani_viol:
